@@ -129,7 +129,7 @@ def CarryInv (pure : List (SPure α)) (cI : ScanCarry α) (cS : Option (Arr α) 
 the vectorised route of the values the iteration left, the results are the iteration's results after `to_tree` -/
 def YRel (pure : List (SPure α)) (outPs : List Prefix) (yS : Store α × List (Out α)) (yI : ScanY α) : Prop :=
   (∃ parts, mapX (scanSplitArgOut yS.1) pure = .ok parts ∧ yI.1 = (parts.filterMap id).map (·.1)) ∧
-  mapX splitOut (outPs.zip yS.2) = .ok yI.2
+  mapX splitOut (outPs.zip yS.2) = .ok yI.2 ∧ outPs.length = yS.2.length
 
 /-- **One iteration of `ScanFn` is one iteration of the reference loop.** -/
 theorem scanFn_step {body : Body α} {ca : CarryArg} {cout : CarryPos} {outPs : List Prefix} {store : Store α}
@@ -172,7 +172,7 @@ theorem scanFn_step {body : Body α} {ca : CarryArg} {cout : CarryPos} {outPs : 
               rw [← hc1, h2]
               simp only [hb, hcr, hlen, ne_eq, not_true_eq_false, if_false]
             · exact ⟨rfl, parts', hpo, rfl⟩
-            · exact ⟨⟨parts', hpo, rfl⟩, hso⟩
+            · exact ⟨⟨parts', hpo, rfl⟩, hso, hlen⟩
         · simp [hlen] at h
 
 /-! ### the fold -/
@@ -303,7 +303,9 @@ theorem nnxScan_loop {α : Type} [Inhabited α] {inAxes outAxes : AxesSpec} {len
         (initCarrySpec (arrArgs (ps.zip args)), store) = .ok (fin, recs) ∧
       CarryInv si.pure cfin fin ∧ All2 (YRel si.pure outPs) recs ys ∧
       scanWriteBack (ys.map (·.1)) si.pure cfin.2 si.bcastDeque store = .ok res.1 ∧
-      insertCarry cout ca fin.1 outs = .ok res.2 := by
+      (∃ y0 yt, ys = y0 :: yt ∧ mapX (scanOutAt (ys.map (·.2))) ((List.range y0.2.length).zip y0.2) = .ok outs) ∧
+      insertCarry cout ca fin.1 outs = .ok res.2 ∧
+      ∃ dims, scanDims si.pure = .ok dims ∧ jaxLength length dims = .ok n := by
   simp only [nnxScan] at h
   cases h1 : scanSetup inAxes outAxes with
   | error e => simp [h1] at h
@@ -354,7 +356,7 @@ theorem nnxScan_loop {α : Type} [Inhabited α] {inAxes outAxes : AxesSpec} {len
   | error e => simp at h
   | ok store' =>
   simp only [] at h
-  generalize hco : mapX _ ((List.range y0.2.length).zip y0.2) = mco at h
+  generalize hco : mapX (scanOutAt _) ((List.range y0.2.length).zip y0.2) = mco at h
   cases mco with
   | error e => simp at h
   | ok outs =>
@@ -367,7 +369,7 @@ theorem nnxScan_loop {α : Type} [Inhabited α] {inAxes outAxes : AxesSpec} {len
   subst h
   obtain ⟨fin, recs, hloop, hinv, hy⟩ := scan_loop_sim (hwf ps h2) h3 hls
   refine ⟨cin, cout, ps, si, ca, outPs, n, cfin, y0 :: yt, fin, recs, outs, rfl, rfl, h3, h4, h5,
-    Nat.pos_of_ne_zero hn0, hloop, hinv, hy, hwb, ?_⟩
+    Nat.pos_of_ne_zero hn0, hloop, hinv, hy, hwb, ⟨y0, yt, rfl, hco⟩, ?_, dims, h6, liftL_ok.1 h7⟩
   rw [← hinv.1]
   exact hic
 
